@@ -1,8 +1,11 @@
 package main
 
 import (
+	"fmt"
 	"go/token"
 	"go/types"
+	"os"
+	"sort"
 	"strings"
 
 	"golang.org/x/tools/go/ssa"
@@ -12,7 +15,7 @@ func init() {
 	register(&propDef{
 		ID:      "C07",
 		Level:   "other",
-		Explain: "HTTP pass-through conditions decided on every path of proxy.HTTPProxy.ServeHTTP, the Director and the response-writer wrappers: (G1) every upstream-contact site is dominated by the target != nil edge of the route lookup; (N1) the no-route edge writes a status derived from Config.NoRouteStatus (404 on the out-of-range edge) and the noroute page, then returns; (D1) the Director stores only to req.URL.{Scheme,Host,Path,RawPath,RawQuery}, touches no header but User-Agent, and the ReverseProxy literal takes Transport/FlushInterval from its parameters; (H1) every Set/Add/Del/index-store on the request's header map reachable from ServeHTTP uses a key from the managed set (the forwarding headers, User-Agent, and the configured request-id / client-ip / TLS header names), and nothing stores to the request's Method, Body, Proto, ContentLength or TransferEncoding; (H2) every store to r.Host is control-dependent on a test of Target.Host; (U1) a function that stores a sliced/concatenated request path into a url.URL.Path sent upstream applies the same transformation to RawPath (the client's percent-encoding must survive strip/prepend); (U2) every transformed path is followed, on every path, by the absolute-path normalisation; (Q1) the route's query is the left operand of the merged query, the request's the right; (W1) every wrapper implementing http.ResponseWriter forwards Header/Write/WriteHeader arguments unchanged and returns the wrapped results. Not decided: body bytes, chunking and hop-by-hop header handling (delegated to net/http/httputil.ReverseProxy).",
+		Explain: "HTTP pass-through conditions decided on the region of proxy.HTTPProxy.ServeHTTP (the method, the helpers of package proxy it calls and their closures), the Director(s) and the response-writer wrappers; sites are found by what they do, not by the function that contains them today: (G1) every upstream-contact site lies, on every path, behind the target != nil edge of the route lookup (the test may live in a helper that returns the target or a verdict); (N1) where the looked-up target is known to be nil, WriteHeader gets a status whose only sources are Config.NoRouteStatus and the constant 404, and the noroute page is written on the same edge; (D1) every function stored into a ReverseProxy.Director (closure, named function, bound method) stores only to req.URL.{Scheme,Host,Path,RawPath,RawQuery} and touches no header but User-Agent, and FlushInterval is what the caller chose among the configured flush intervals; (H1) every Set/Add/Del/index-store on a request's header map reachable from ServeHTTP (also through a helper that takes the map or the key as a parameter) uses a key all of whose possible values are in the managed set (the forwarding headers, User-Agent, and the configured request-id / client-ip / TLS header names), and nothing stores to the request's Method, Body, Proto, ContentLength or TransferEncoding; (H2) every store to r.Host lies, on every path, behind a branch decided by Target.Host; (U1) on the URL that the Director copies into the outgoing request (all of its aliases across helpers): every strip / prepend of Path has a like operation on RawPath, RawPath starts from the client's RawPath, and every Director that copies Path copies RawPath; (U2) every stripped or prepended Path and RawPath is absolute by construction or passes, on every path before the URL is handed to the Director or installed in the request, an absolute-path normalisation of that field (HasPrefix(x, \"/\") true, \"/\"+x, for RawPath also empty); (Q1) every value stored to the URL's RawQuery is, in each of its alternatives, <route query>[&]<request query> with the separator exactly when both are known to be non-empty and nothing else mixed in; (W1) every wrapper implementing http.ResponseWriter forwards Header/Write/WriteHeader arguments unchanged on every path and returns the wrapped results. Not decided: body bytes, chunking and hop-by-hop header handling (delegated to net/http/httputil.ReverseProxy).",
 		Run:     runC07,
 		Trusted: []string{"net/http/httputil.ReverseProxy copies method, body and end-to-end headers unchanged and removes hop-by-hop headers", "url.URL.EscapedPath uses RawPath only when it is a valid encoding of Path"},
 		Mutants: []mutant{
@@ -43,17 +46,21 @@ var managedRequestHeaders = map[string]bool{
 var managedHeaderConfig = map[string]bool{"RequestID": true, "ClientIPHeader": true, "TLSHeader": true}
 
 func runC07(c *Ctx) {
-	runGateHTTP(c, "C07.G1", false)
 	serve := c.method("proxy", "HTTPProxy", "ServeHTTP")
-	if serve == nil {
+	if !c.need("C07.G1", serve, "proxy.HTTPProxy.ServeHTTP") {
 		return
 	}
+	runC07G1(c, serve)
 	runC07N1(c, serve)
-	runC07D1(c)
+	directors := runC07D1(c)
 	runC07H(c, serve)
-	runC07U(c, serve)
-	runC07Q1(c, serve)
+	runC07U(c, serve, directors)
 	runC07W1(c)
+	if os.Getenv("C07_DEBUG") != "" {
+		for _, o := range c.Obs {
+			fmt.Fprintf(os.Stderr, "C07DBG %-10s %-8s %-28s %s\n", o.Status, o.Rule, o.Pos, o.Construct)
+		}
+	}
 }
 
 func isReqParam(v ssa.Value) bool {
@@ -61,42 +68,69 @@ func isReqParam(v ssa.Value) bool {
 	return ok && typeStr(p.Type()) == "*net/http.Request"
 }
 
+// runC07N1: the no-route edge. Sites are found by role - a WriteHeader on a response writer at a point where the
+// looked-up target is known to be nil - anywhere in the region of ServeHTTP (the branch may have been extracted).
 func runC07N1(c *Ctx, serve *ssa.Function) {
-	// the block(s) where the looked-up target is known nil
+	reg := c07region(3, serve)
+	isBodyWrite := func(j ssa.Instruction) bool {
+		jc := callCommon(j)
+		if jc == nil {
+			return false
+		}
+		isWrite := false
+		switch calleeName(jc) {
+		case "io.WriteString", "fmt.Fprint", "fmt.Fprintf", "io.Copy":
+			isWrite = true
+		}
+		if jc.IsInvoke() && (jc.Method.Name() == "Write" || jc.Method.Name() == "WriteString") {
+			isWrite = true
+		}
+		if !isWrite {
+			return false
+		}
+		for _, a := range jc.Args {
+			if derives(a, func(v ssa.Value) bool { _, ok := isCallTo(v, repoMod+"/noroute.GetHTML"); return ok }) {
+				return true
+			}
+		}
+		return false
+	}
 	n := 0
-	eachInstr(serve, func(i ssa.Instruction) {
+	eachInstrOf(reg, func(f *ssa.Function, i ssa.Instruction) {
 		cc := callCommon(i)
-		if cc == nil || !cc.IsInvoke() || cc.Method.Name() != "WriteHeader" {
+		if cc == nil || !cc.IsInvoke() || cc.Method.Name() != "WriteHeader" || len(cc.Args) != 1 {
 			return
 		}
-		if !knownNil(i.Block(), isLookupFieldCall) {
+		if !c07knownNil(i.Block()) {
 			return
 		}
 		n++
-		// status: merge of Config.NoRouteStatus and the constant 404, the 404 on a range-test edge
-		okCfg, ok404 := false, false
-		for _, d := range defsOf(cc.Args[0]) {
-			if _, isF := fieldOf(d.Val, "config.Proxy", "NoRouteStatus"); isF {
+		// status: Config.NoRouteStatus, with the constant 404 as the only alternative (the out-of-range fallback)
+		okCfg, ok404, other := false, false, ""
+		leaves, complete := c07leavesAll(cc.Args[0])
+		if !complete {
+			other = "too many sources"
+		}
+		for _, l := range leaves {
+			if _, isF := fieldOf(l, "config.Proxy", "NoRouteStatus"); isF {
 				okCfg = true
-			}
-			if k, isK := constInt(d.Val); isK && k == 404 {
+			} else if k, isK := constInt(l); isK && k == 404 {
 				ok404 = true
+			} else {
+				other = shortPath(l)
 			}
 		}
-		if _, isF := fieldOf(cc.Args[0], "config.Proxy", "NoRouteStatus"); isF {
-			okCfg, ok404 = true, true // no clamp needed when config validation guarantees the range
-		}
-		c.check("C07.N1", "proxy.(*HTTPProxy).ServeHTTP|no-route status from Config.NoRouteStatus", i.Pos(), okCfg && ok404,
-			"a request without a route must be answered with the configured proxy.noroutestatus (404 only as the fallback for an out-of-range value)")
-		// followed by return on every path, body from noroute.GetHTML
+		_ = ok404 // no clamp is needed when config validation guarantees the range
+		c.check("C07.N1", "proxy.(*HTTPProxy).ServeHTTP|no-route status from Config.NoRouteStatus", i.Pos(), okCfg && other == "",
+			"a request without a route must be answered with the configured proxy.noroutestatus (404 only as the fallback for an out-of-range value)"+map[bool]string{true: "; found " + other, false: ""}[other != ""])
+		// the body is the configured page, written after the status on the same edge
 		body := false
-		eachInstr(serve, func(j ssa.Instruction) {
-			if pathAvoiding(i, j, nil) {
-				if jc := callCommon(j); jc != nil && calleeName(jc) == "io.WriteString" && len(jc.Args) == 2 {
-					if derives(jc.Args[1], func(v ssa.Value) bool { _, ok := isCallTo(v, repoMod+"/noroute.GetHTML"); return ok }) {
-						body = true
-					}
-				}
+		eachInstrOf(reg, func(g *ssa.Function, j ssa.Instruction) {
+			if body || !isBodyWrite(j) || !c07knownNil(j.Block()) {
+				return
+			}
+			if g != f || canReach(i, j) {
+				body = true
 			}
 		})
 		c.check("C07.N1", "proxy.(*HTTPProxy).ServeHTTP|no-route body is the configured page", i.Pos(), body, "the no-route body must be noroute.GetHTML()")
@@ -104,66 +138,141 @@ func runC07N1(c *Ctx, serve *ssa.Function) {
 	c.atLeast("C07.N1", "WriteHeader on the no-route edge", n, 1)
 }
 
-func runC07D1(c *Ctx) {
-	sp := c.spkg("proxy")
+// runC07D1: the reverse proxy and its Director, wherever they are built in package proxy. Returns the Director
+// functions (closures, named functions or methods).
+func runC07D1(c *Ctx) []*ssa.Function {
+	var directors []*ssa.Function
 	n := 0
-	for _, f := range c.AllFns {
-		if rootPkg(f) != sp {
-			continue
-		}
+	for _, f := range c07proxyFns(c) {
 		for _, a := range allocsOf(f, "httputil.ReverseProxy") {
 			n++
 			fs := fieldStores(a)
-			// FlushInterval from a parameter
+			// FlushInterval: what the caller chose (a parameter), i.e. one of the configured flush intervals
 			okFlush := false
 			for _, st := range fs["FlushInterval"] {
-				if _, isP := st.Val.(*ssa.Parameter); isP {
-					okFlush = true
+				ls, complete := c07leavesAll(st.Val)
+				okFlush = len(ls) > 0 && complete
+				for _, l := range ls {
+					_, isP := l.(*ssa.Parameter)
+					_, isF1 := fieldOf(l, "config.Proxy", "FlushInterval")
+					_, isF2 := fieldOf(l, "config.Proxy", "GlobalFlushInterval")
+					if !isP && !isF1 && !isF2 {
+						okFlush = false
+					}
 				}
 			}
 			c.check("C07.D1", fnKey(f)+"|ReverseProxy.FlushInterval from the parameter", a.Pos(), okFlush, "the flush interval chosen by ServeHTTP (SSE vs. global) must reach the reverse proxy")
+			nd := 0
 			for _, st := range fs["Director"] {
-				mc, ok := st.Val.(*ssa.MakeClosure)
-				if !ok {
-					c.check("C07.D1", fnKey(f)+"|Director", st.Pos(), false, "Director must be the local closure")
+				ds := funcsOf(st.Val)
+				if len(ds) == 0 {
+					c.check("C07.D1", fnKey(f)+"|Director", st.Pos(), false, "the Director must be a function of this repository whose body can be inspected")
 					continue
 				}
-				d := mc.Fn.(*ssa.Function)
-				allowedURL := map[string]bool{"Scheme": true, "Host": true, "Path": true, "RawPath": true, "RawQuery": true}
-				eachInstr(d, func(i ssa.Instruction) {
-					switch x := i.(type) {
-					case *ssa.Store:
-						fa, ok := x.Addr.(*ssa.FieldAddr)
-						if !ok {
-							return
-						}
-						fname := fieldName(fa.X.Type(), fa.Field)
-						switch {
-						case namedIs(fa.X.Type(), "url.URL"):
-							c.check("C07.D1", fnKey(d)+"|store req.URL."+fname, x.Pos(), allowedURL[fname], "the Director may rewrite only Scheme, Host, Path, RawPath and RawQuery of the outgoing URL")
-						case namedIs(fa.X.Type(), "http.Request"):
-							c.check("C07.D1", fnKey(d)+"|store req."+fname, x.Pos(), false, "the Director must not change the request's "+fname+": method, body and end-to-end headers reach the upstream unchanged")
-						}
-					}
-					for _, m := range []string{"Set", "Add", "Del"} {
-						if k, _, ok := headerCall(i, m); ok {
-							c.check("C07.D1", fnKey(d)+"|Header."+m+"("+k+")", i.Pos(), k == "User-Agent", "the Director may only pin User-Agent (to keep net/http from adding its default); every other header is the client's")
-						} else if cc := callCommon(i); cc != nil && calleeName(cc) == "(net/http.Header)."+m {
-							c.check("C07.D1", fnKey(d)+"|Header."+m+"(non-constant key)", i.Pos(), false, "header mutation with a computed key in the Director")
-						}
-					}
-				})
+				for _, d := range ds {
+					nd++
+					directors = append(directors, d)
+					c07checkDirector(c, d)
+				}
 			}
-			c.atLeast("C07.D1", "Director closures", len(fs["Director"]), 1)
+			c.atLeast("C07.D1", "Director functions", nd, 1)
 		}
 	}
-	c.atLeast("C07.D1", "ReverseProxy literals", n, 1)
+	c.atLeast("C07.D1", "ReverseProxy values built in package proxy", n, 1)
+	return directors
+}
+
+func c07checkDirector(c *Ctx, d *ssa.Function) {
+	allowedURL := map[string]bool{"Scheme": true, "Host": true, "Path": true, "RawPath": true, "RawQuery": true}
+	eachInstrOf(c.region(d), func(g *ssa.Function, i ssa.Instruction) {
+		if st, ok := i.(*ssa.Store); ok {
+			if fa, ok := st.Addr.(*ssa.FieldAddr); ok {
+				fname := fieldName(fa.X.Type(), fa.Field)
+				switch {
+				case namedIs(fa.X.Type(), "url.URL"):
+					c.check("C07.D1", fnKey(d)+"|store req.URL."+fname, st.Pos(), allowedURL[fname], "the Director may rewrite only Scheme, Host, Path, RawPath and RawQuery of the outgoing URL")
+				case namedIs(fa.X.Type(), "http.Request"):
+					c.check("C07.D1", fnKey(d)+"|store req."+fname, st.Pos(), false, "the Director must not change the request's "+fname+": method, body and end-to-end headers reach the upstream unchanged")
+				}
+			}
+		}
+		if mu, ok := i.(*ssa.MapUpdate); ok && typeStr(mu.Map.Type()) == "net/http.Header" {
+			k, _ := constString(mu.Key)
+			c.check("C07.D1", fnKey(d)+"|Header["+k+"] =", i.Pos(), c07canonical(k) == "User-Agent", "the Director may only pin User-Agent; every other header is the client's")
+		}
+		cc := callCommon(i)
+		if cc == nil {
+			return
+		}
+		for _, m := range []string{"Set", "Add", "Del"} {
+			if calleeName(cc) != "(net/http.Header)."+m || len(cc.Args) < 2 {
+				continue
+			}
+			ls, ok := c07leavesAll(cc.Args[1])
+			what := ""
+			for _, l := range ls {
+				k, isK := constString(l)
+				if !isK {
+					ok, what = false, "non-constant key"
+				} else if what = k; c07canonical(k) != "User-Agent" {
+					ok = false
+				}
+			}
+			c.check("C07.D1", fnKey(d)+"|Header."+m+"("+what+")", i.Pos(), ok, "the Director may only pin User-Agent (to keep net/http from adding its default); every other header is the client's")
+		}
+	})
 }
 
 // requestHeaderOf: v is the Header field of an *http.Request value (parameter or request-derived).
 func isRequestHeader(v ssa.Value) bool {
 	_, ok := fieldOf(v, "http.Request", "Header")
 	return ok
+}
+
+// c07isRequestHeader: v may denote a request's header map - directly, or as a helper's parameter / a local that
+// receives one.
+func c07isRequestHeader(v ssa.Value) bool {
+	if isRequestHeader(v) {
+		return true
+	}
+	if typeStr(v.Type()) != "net/http.Header" {
+		return false
+	}
+	for _, l := range c07leaves(v) {
+		if isRequestHeader(l) {
+			return true
+		}
+	}
+	return false
+}
+
+// c07managedKey: every value the key can take is a managed header name: a constant of the managed set or one of
+// the configured header names (a helper's parameter stands for the arguments of its calls).
+func c07managedKey(key ssa.Value) (bool, string) {
+	ok, what := true, ""
+	ls, complete := c07leavesAll(key)
+	if len(ls) == 0 || !complete {
+		return false, shortPath(key)
+	}
+	for _, l := range ls {
+		if k, isK := constString(l); isK {
+			what = k
+			if !managedRequestHeaders[c07canonical(k)] {
+				return false, k
+			}
+			continue
+		}
+		isCfg := false
+		for fn := range managedHeaderConfig {
+			if _, isF := fieldOf(l, "config.Proxy", fn); isF {
+				isCfg, what = true, "Config."+fn
+			}
+		}
+		if !isCfg {
+			return false, shortPath(l)
+		}
+	}
+	return ok, what
 }
 
 func runC07H(c *Ctx, serve *ssa.Function) {
@@ -174,330 +283,85 @@ func runC07H(c *Ctx, serve *ssa.Function) {
 			scope[f] = true
 		}
 	}
-	nH := 0
+	for _, f := range c.region(serve) {
+		scope[f] = true
+	}
+	var fns []*ssa.Function
 	for f := range scope {
 		if f.Name() == "ServeHTTP" && f != serve {
 			continue // other handlers' own ServeHTTP (ws handler closures are closures, not methods)
 		}
-		eachInstr(f, func(i ssa.Instruction) {
-			// header method calls on the request's header
+		fns = append(fns, f)
+	}
+	sort.Slice(fns, func(i, j int) bool { return fns[i].String() < fns[j].String() })
+	nH := 0
+	eachInstrOf(fns, func(f *ssa.Function, i ssa.Instruction) {
+		// header method calls on the request's header
+		if cc := callCommon(i); cc != nil && len(cc.Args) >= 2 {
 			for _, m := range []string{"Set", "Add", "Del"} {
-				cc := callCommon(i)
-				if cc == nil || calleeName(cc) != "(net/http.Header)."+m {
-					continue
-				}
-				if !isRequestHeader(cc.Args[0]) {
+				if calleeName(cc) != "(net/http.Header)."+m || !c07isRequestHeader(cc.Args[0]) {
 					continue
 				}
 				nH++
-				key := cc.Args[1]
-				ok, what := false, ""
-				if k, isK := constString(key); isK {
-					ok, what = managedRequestHeaders[k], k
-				} else {
-					for fn := range managedHeaderConfig {
-						if _, isF := fieldOf(key, "config.Proxy", fn); isF {
-							ok, what = true, "Config."+fn
-						}
-					}
-					if !ok {
-						what = shortPath(key)
-					}
-				}
+				ok, what := c07managedKey(cc.Args[1])
 				c.check("C07.H1", fnKey(f)+"|request Header."+m+"("+what+")", i.Pos(), ok,
 					"only the forwarding headers fabio manages may be changed on the request; any other end-to-end header of the client must reach the upstream unchanged")
 			}
-			// direct map stores r.Header[k] = v
-			if mu, ok := i.(*ssa.MapUpdate); ok && isRequestHeader(mu.Map) {
-				nH++
-				k, _ := constString(mu.Key)
-				c.check("C07.H1", fnKey(f)+"|request Header["+k+"] =", i.Pos(), managedRequestHeaders[k], "direct store into the request's header map outside the managed set")
-			}
-			// stores to request fields
-			if st, ok := i.(*ssa.Store); ok {
-				if fa, ok := st.Addr.(*ssa.FieldAddr); ok && namedIs(fa.X.Type(), "http.Request") {
-					fname := fieldName(fa.X.Type(), fa.Field)
-					switch fname {
-					case "Host", "URL":
-						// Host: H2; URL: the websocket path installs the target URL
-					default:
-						c.check("C07.H1", fnKey(f)+"|store r."+fname, i.Pos(), false, "the request's "+fname+" must reach the upstream unchanged")
-					}
+		}
+		// direct map stores r.Header[k] = v
+		if mu, ok := i.(*ssa.MapUpdate); ok && c07isRequestHeader(mu.Map) {
+			nH++
+			ok, what := c07managedKey(mu.Key)
+			c.check("C07.H1", fnKey(f)+"|request Header["+what+"] =", i.Pos(), ok, "direct store into the request's header map outside the managed set")
+		}
+		// stores to request fields
+		if st, ok := i.(*ssa.Store); ok {
+			if fa, ok := st.Addr.(*ssa.FieldAddr); ok && namedIs(fa.X.Type(), "http.Request") {
+				fname := fieldName(fa.X.Type(), fa.Field)
+				switch fname {
+				case "Host", "URL":
+					// Host: H2; URL: the websocket path installs the target URL
+				default:
+					c.check("C07.H1", fnKey(f)+"|store r."+fname, i.Pos(), false, "the request's "+fname+" must reach the upstream unchanged")
 				}
 			}
-		})
-	}
-	c.atLeast("C07.H1", "mutations of the request header map", nH, 3)
+		}
+	})
+	c.atLeast("C07.H1", "mutations of the request header map", nH, 1)
 
-	// H2
+	// H2: the Host is replaced only under a test that depends on the route's host option
+	isHostOpt := func(v ssa.Value) bool { _, ok := fieldOf(v, "route.Target", "Host"); return ok }
 	nHost := 0
-	for f := range scope {
-		eachInstr(f, func(i ssa.Instruction) {
-			st, ok := i.(*ssa.Store)
-			if !ok {
-				return
-			}
-			if _, isHost := fieldOf(st.Addr, "http.Request", "Host"); !isHost {
-				return
-			}
-			nHost++
-			dep := false
-			for _, ft := range factsAt(st.Block()) {
-				if b, ok := ft.Cond.(*ssa.BinOp); ok {
-					if _, isF := fieldOf(b.X, "route.Target", "Host"); isF {
-						dep = true
-					}
-				}
-			}
-			c.check("C07.H2", fnKey(f)+"|r.Host rewritten only when the route asks for it", st.Pos(), dep,
-				"the Host header may be replaced only under a test of the route's host option (host=dst / host=<name>); otherwise the upstream must see the Host the client sent")
-		})
-	}
-	c.atLeast("C07.H2", "stores to r.Host", nHost, 2)
+	eachInstrOf(fns, func(f *ssa.Function, i ssa.Instruction) {
+		st, ok := i.(*ssa.Store)
+		if !ok {
+			return
+		}
+		if _, isHost := fieldOf(st.Addr, "http.Request", "Host"); !isHost {
+			return
+		}
+		if _, isAddr := st.Addr.(*ssa.FieldAddr); !isAddr {
+			return
+		}
+		nHost++
+		// on every path to the store some branch was decided by the route's host option
+		dep := c07holdsBlock(st.Block(), func(ft Fact) bool { return derives(ft.Cond, isHostOpt) }, map[*ssa.BasicBlock]bool{})
+		c.check("C07.H2", fnKey(f)+"|r.Host rewritten only when the route asks for it", st.Pos(), dep,
+			"the Host header may be replaced only under a test of the route's host option (host=dst / host=<name>); otherwise the upstream must see the Host the client sent")
+	})
+	c.atLeast("C07.H2", "stores to r.Host", nHost, 1)
 }
 
-// pathTransformStores: stores into the Path field of a locally built url.URL whose value is a
-// slice or concatenation (strip / prepend).
-func runC07U(c *Ctx, serve *ssa.Function) {
-	var target *ssa.Alloc
-	for _, a := range allocsOf(serve, "url.URL") {
-		if a.Comment == "complit" {
-			// the one passed to newHTTPProxy
-			eachInstr(serve, func(i ssa.Instruction) {
-				if cc := callCommon(i); cc != nil {
-					if sc := cc.StaticCallee(); sc != nil && sc.Name() == "newHTTPProxy" && len(cc.Args) > 0 && cc.Args[0] == a {
-						target = a
-					}
-				}
-			})
-		}
-	}
-	if target == nil {
-		c.undecided("C07.U1", "proxy.(*HTTPProxy).ServeHTTP|target URL literal", "the url.URL passed to newHTTPProxy was not found")
+// runC07U: U1, U2 and Q1 on the URL the Director copies into the outgoing request.
+func runC07U(c *Ctx, serve *ssa.Function, directors []*ssa.Function) {
+	u, ok := newC07url(c, serve, directors)
+	if !ok {
+		c.undecided("C07.U1", "anchor|upstream URL", "no Director copies a URL's Path into the outgoing request and no URL is installed in the request: the URL sent upstream was not found")
 		return
 	}
-	fs := fieldStores(target)
-	var transforms []*ssa.Store
-	for _, st := range fs["Path"] {
-		switch v := st.Val.(type) {
-		case *ssa.Slice:
-			transforms = append(transforms, st)
-		case *ssa.BinOp:
-			if v.Op == token.ADD {
-				transforms = append(transforms, st)
-			}
-		}
-	}
-	c.atLeast("C07.U2", "path transformations (strip/prepend) on the target URL", len(transforms), 2)
-	// U2: absolute-path normalisation follows each strip/prepend store
-	isNormStore := func(i ssa.Instruction) bool {
-		st, ok := i.(*ssa.Store)
-		if !ok {
-			return false
-		}
-		fa, ok := st.Addr.(*ssa.FieldAddr)
-		if !ok || fa.X != target || fieldName(fa.X.Type(), fa.Field) != "Path" {
-			return false
-		}
-		b, ok := st.Val.(*ssa.BinOp)
-		if !ok || b.Op != token.ADD {
-			return false
-		}
-		s, ok := constString(b.X)
-		return ok && s == "/"
-	}
-	hasSlashTest := func(b *ssa.BasicBlock) bool {
-		if len(b.Instrs) == 0 {
-			return false
-		}
-		iff, ok := b.Instrs[len(b.Instrs)-1].(*ssa.If)
-		if !ok {
-			return false
-		}
-		call, ok := isCallTo(iff.Cond, "strings.HasPrefix")
-		if !ok {
-			return false
-		}
-		s, _ := constString(call.Call.Args[1])
-		return s == "/"
-	}
-	isPathLoad := func(v ssa.Value) bool {
-		u, ok := v.(*ssa.UnOp)
-		if !ok || u.Op != token.MUL {
-			return false
-		}
-		fa, ok := u.X.(*ssa.FieldAddr)
-		return ok && fa.X == target && fieldName(fa.X.Type(), fa.Field) == "Path"
-	}
-	slashTestOnPath := func(b *ssa.BasicBlock) bool {
-		if !hasSlashTest(b) {
-			return false
-		}
-		iff := b.Instrs[len(b.Instrs)-1].(*ssa.If)
-		call, _ := isCallTo(iff.Cond, "strings.HasPrefix")
-		return call != nil && isPathLoad(call.Call.Args[0])
-	}
-	usesTarget := func(i ssa.Instruction) bool {
-		if _, isRet := i.(*ssa.Return); isRet {
-			return true
-		}
-		cc := callCommon(i)
-		if cc == nil {
-			return false
-		}
-		for _, a := range cc.Args {
-			if a == target {
-				return true
-			}
-		}
-		return false
-	}
-	for _, st := range transforms {
-		if isNormStore(st) {
-			continue
-		}
-		// forward search from the transformation: a use of the URL must not be reachable unless the
-		// path passed the true edge of HasPrefix(path, "/") or a normalising store
-		type item struct {
-			b   *ssa.BasicBlock
-			idx int
-		}
-		seen := map[*ssa.BasicBlock]bool{}
-		stack := []item{{st.Block(), instrIndex(st) + 1}}
-		bad := false
-		for len(stack) > 0 && !bad {
-			it := stack[len(stack)-1]
-			stack = stack[:len(stack)-1]
-			stopped := false
-			for k := it.idx; k < len(it.b.Instrs); k++ {
-				in := it.b.Instrs[k]
-				if isNormStore(in) {
-					stopped = true
-					break
-				}
-				if usesTarget(in) {
-					bad = true
-					break
-				}
-			}
-			if stopped || bad {
-				continue
-			}
-			succs := it.b.Succs
-			if slashTestOnPath(it.b) {
-				succs = it.b.Succs[1:] // the true edge is fine: the path is absolute
-			}
-			for _, sx := range succs {
-				if !seen[sx] {
-					seen[sx] = true
-					stack = append(stack, item{sx, 0})
-				}
-			}
-		}
-		what := "prepend"
-		if _, isSlice := st.Val.(*ssa.Slice); isSlice {
-			what = "strip"
-		}
-		c.check("C07.U2", "proxy.(*HTTPProxy).ServeHTTP|absolute path after "+what, st.Pos(), !bad,
-			"after "+what+" the upstream path can reach the proxy without passing the absolute-path normalisation (HasPrefix(path, \"/\") true, or \"/\"+path): a request target that is not origin-form is rejected or misrouted by the upstream (RFC 7230 5.3)")
-	}
-	// U1: the same transformation is applied to RawPath
-	kind := func(v ssa.Value) string {
-		switch x := v.(type) {
-		case *ssa.Slice:
-			return "strip"
-		case *ssa.BinOp:
-			if x.Op == token.ADD {
-				if s, ok := constString(x.X); ok && s == "/" {
-					return "abs"
-				}
-				return "prepend"
-			}
-		}
-		return ""
-	}
-	for _, st := range transforms {
-		k := kind(st.Val)
-		if k == "abs" {
-			continue
-		}
-		ok := false
-		for _, rs := range fs["RawPath"] {
-			if kind(rs.Val) != k {
-				continue
-			}
-			// the RawPath transformation happens on the same edge (after the Path transformation, before leaving its region)
-			if sameRegion(st, rs) && (pathAvoiding(st, rs, nil) || pathAvoiding(rs, st, nil)) {
-				ok = true
-			}
-		}
-		c.check("C07.U1", "proxy.(*HTTPProxy).ServeHTTP|"+k+" applied to RawPath as well", st.Pos(), ok,
-			k+" rewrites url.URL.Path but not RawPath: the client's RawPath then no longer encodes the new Path and is ignored by EscapedPath(), so an encoded slash (%2F) in the client's path is silently decoded whenever the option applies (sibling Target.BuildRedirectURL transforms RawPath as well)")
-	}
-	// the literal starts from the client's RawPath and the Director hands it on
-	fromReq := false
-	for _, rs := range fs["RawPath"] {
-		if derives(rs.Val, func(v ssa.Value) bool { _, ok := fieldOf(v, "url.URL", "RawPath"); return ok && derives(v, isReqParam) }) {
-			fromReq = true
-		}
-	}
-	c.check("C07.U1", "proxy.(*HTTPProxy).ServeHTTP|target RawPath starts from the client's RawPath", target.Pos(), fromReq, "the upstream URL must carry the client's RawPath (its percent-encoding)")
-	directorSetsRaw := false
-	if np := c.fn("proxy", "newHTTPProxy"); np != nil {
-		for _, d := range np.AnonFuncs {
-			eachInstr(d, func(i ssa.Instruction) {
-				if st, ok := i.(*ssa.Store); ok {
-					if fa, ok := st.Addr.(*ssa.FieldAddr); ok && namedIs(fa.X.Type(), "url.URL") && fieldName(fa.X.Type(), fa.Field) == "RawPath" {
-						if _, isRaw := fieldOf(st.Val, "url.URL", "RawPath"); isRaw {
-							directorSetsRaw = true
-						}
-					}
-				}
-			})
-		}
-	}
-	c.check("C07.U1", "proxy.newHTTPProxy$1|Director hands the target's RawPath to the request", target.Pos(), directorSetsRaw,
-		"the Director sets req.URL.Path but leaves the client's RawPath: after strip/prepend it no longer matches and the encoding is lost (or, worse, a stale RawPath that still matches is sent instead of the rewritten path)")
-}
-
-func runC07Q1(c *Ctx, serve *ssa.Function) {
-	n := 0
-	eachInstr(serve, func(i ssa.Instruction) {
-		st, ok := i.(*ssa.Store)
-		if !ok {
-			return
-		}
-		fa, ok := st.Addr.(*ssa.FieldAddr)
-		if !ok || !namedIs(fa.X.Type(), "url.URL") || fieldName(fa.X.Type(), fa.Field) != "RawQuery" {
-			return
-		}
-		al, isAlloc := fa.X.(*ssa.Alloc)
-		if !isAlloc || !passedToNewHTTPProxy(serve, al) {
-			return
-		}
-		n++
-		// leftmost leaf of the concatenation derives from the target (route), rightmost from the request
-		left, right := st.Val, st.Val
-		for {
-			b, ok := left.(*ssa.BinOp)
-			if !ok || b.Op != token.ADD {
-				break
-			}
-			left = b.X
-		}
-		for {
-			b, ok := right.(*ssa.BinOp)
-			if !ok || b.Op != token.ADD {
-				break
-			}
-			right = b.Y
-		}
-		fromRoute := derives(left, func(v ssa.Value) bool { _, ok := fieldOf(v, "route.Target", "URL"); return ok })
-		fromReq := derives(right, isReqParam)
-		c.check("C07.Q1", "proxy.(*HTTPProxy).ServeHTTP|route query in front of the request query", st.Pos(), fromRoute && fromReq,
-			"the merged query must be <route query>[&]<request query>: the route's own parameters come first, the client's follow unchanged")
-	})
-	c.atLeast("C07.Q1", "stores to the target URL's RawQuery", n, 2)
+	_, pathOnly := c07directorSources(c, directors)
+	u.runU(pathOnly, serve.Pos())
+	u.runQ1()
 }
 
 // runC07W1: wrappers implementing http.ResponseWriter forward unchanged.
@@ -527,8 +391,8 @@ func runC07W1(c *Ctx) {
 				continue
 			}
 			name := sp.Pkg.Name() + "." + t.Name()
-			if name == "gzip.GzipResponseWriter" {
-				continue // its Write/WriteHeader are decided by C17 (compress or pass-through)
+			if name == "gzip.GzipResponseWriter" || c07holdsCompressor(st) {
+				continue // a compressing writer: its Write/WriteHeader are decided by C17 (compress or pass-through)
 			}
 			n++
 			for _, mn := range []string{"Write", "WriteHeader", "Header"} {
@@ -548,7 +412,7 @@ func runC07W1(c *Ctx) {
 					// all arguments are the method's own parameters, in order
 					same := len(cc.Args) == len(f.Params)-1
 					for k := range cc.Args {
-						if !same || cc.Args[k] != f.Params[k+1] {
+						if !same || !c07sameParam(cc.Args[k], f.Params[k+1]) {
 							same = false
 						}
 					}
@@ -581,14 +445,54 @@ func runC07W1(c *Ctx) {
 	c.atLeast("C07.W1", "http.ResponseWriter wrappers", n, 1)
 }
 
-func passedToNewHTTPProxy(serve *ssa.Function, a *ssa.Alloc) bool {
-	found := false
-	eachInstr(serve, func(i ssa.Instruction) {
-		if cc := callCommon(i); cc != nil {
-			if sc := cc.StaticCallee(); sc != nil && sc.Name() == "newHTTPProxy" && len(cc.Args) > 0 && cc.Args[0] == a {
-				found = true
+// c07holdsCompressor: the struct has a field that is a compress/* writer.
+func c07holdsCompressor(st *types.Struct) bool {
+	for k := 0; k < st.NumFields(); k++ {
+		if strings.Contains(typeStr(st.Field(k).Type()), "compress/") {
+			return true
+		}
+	}
+	return false
+}
+
+// c07sameParam: arg is the parameter itself, or a load of the local cell the parameter was spilled into (a parameter
+// captured by a closure lives in a cell that is written once, on entry).
+func c07sameParam(arg ssa.Value, p *ssa.Parameter) bool {
+	if arg == p {
+		return true
+	}
+	u, ok := arg.(*ssa.UnOp)
+	if !ok || u.Op != token.MUL {
+		return false
+	}
+	a, ok := u.X.(*ssa.Alloc)
+	if !ok || a.Referrers() == nil {
+		return false
+	}
+	n := 0
+	for _, r := range *a.Referrers() {
+		switch x := r.(type) {
+		case *ssa.Store:
+			if x.Addr == a {
+				n++
+				if x.Val != p {
+					return false
+				}
+			}
+		case *ssa.MakeClosure:
+			// a closure sharing the cell must not write it
+			fn, _ := x.Fn.(*ssa.Function)
+			for k, b := range x.Bindings {
+				if b != a || fn == nil || k >= len(fn.FreeVars) || fn.FreeVars[k].Referrers() == nil {
+					continue
+				}
+				for _, fr := range *fn.FreeVars[k].Referrers() {
+					if st, ok := fr.(*ssa.Store); ok && st.Addr == fn.FreeVars[k] {
+						return false
+					}
+				}
 			}
 		}
-	})
-	return found
+	}
+	return n == 1
 }
